@@ -81,4 +81,30 @@ theorem getOp_bare (b : UInt8) (rest : Bytes) (h : 79 ≤ b.toNat) :
   have h4 : (b.toNat == OP_PUSHDATA4) = false := by unfold OP_PUSHDATA4; simp; omega
   simp only [h1, h2, h3, h4, if_false, Bool.false_eq_true]
 
+
+/-- two empty scripts never verify (the shortcut btcd takes in NewEngine) -/
+theorem empty_scripts_fail (fl : Flags) (chk : Checker) (wit : List Bytes) :
+    verifyScript fl chk [] [] wit = .error .EVAL_FALSE := by
+  unfold verifyScript
+  have h1 : isPushOnly [] = true := rfl
+  have h2 : ∀ c : Ctx, evalScript c [] [] = .ok [] := by
+    intro c; unfold evalScript; simp [evalLoop, MAX_SCRIPT_SIZE]; rfl
+  simp only [h1, Bool.not_true, Bool.and_false, Bool.false_eq_true, if_false, h2, bind, Except.bind, topTrue]
+
+/-- before taproot activation a version-1 32-byte native program is anyone-can-spend -/
+theorem taproot_inactive_succeeds (fl : Flags) (chk : Checker) (wit : List Bytes) (prog : Bytes)
+    (h32 : prog.length = 32) (ht : fl.taproot = false) :
+    verifyWitnessProgram fl chk wit 1 prog false = .ok () := by
+  unfold verifyWitnessProgram
+  simp [h32, ht]
+
+/-- witness versions 2..16 (any length) succeed unless discouraged by policy -/
+theorem future_witness_version_succeeds (fl : Flags) (chk : Checker) (wit : List Bytes) (ver : Nat) (prog : Bytes)
+    (p : Bool) (hv : 2 ≤ ver) (hd : fl.discourageWitnessProgram = false) :
+    verifyWitnessProgram fl chk wit ver prog p = .ok () := by
+  unfold verifyWitnessProgram
+  have h0 : (ver == 0) = false := by simp; omega
+  have h1 : (ver == 1) = false := by simp; omega
+  simp [h0, h1, hd]
+
 end BV.C06.Lemmas
